@@ -2,6 +2,7 @@ PROPS["C19"] = dict(
     jobs=[job("tsan", "c19_threads", flavour="tsan", cases={Q: 12, T: 400}, args={"rounds": {Q: 150, T: 300}}),
           job("volume", "c19_threads", flavour="fast", cases={Q: 60, T: 3000}, args={"rounds": {Q: 400, T: 800}})],
     crash_is_violation=True,
+    parallel=8,  # two busy threads per worker: more workers than cores/2 only deschedules them and hides races
     timeout={"quick": 1800, "thorough": 6 * 3600},
     rule="per case: a DSP thread runs Run(n) slices (n in 1..3000) of an interrupt-driven echo guest (CMD0/CMD2 echoed from the "
          "APBP interrupt handler, CMD1 polled in the main loop with its interrupt disabled by a DSP-side register write every "
